@@ -236,7 +236,12 @@ func (r *run) account() {
 			put(p, fmt.Sprintf("in-flight release %d of %s", i, rel.table))
 		}
 	}
+	placed := make([]string, 0, len(place))
 	for p := range place {
+		placed = append(placed, p)
+	}
+	sort.Strings(placed)
+	for _, p := range placed {
 		if !r.alive[p] {
 			r.viol("C09", "eliminated-or-unknown-player-present", fmt.Sprintf("%s is in %s", p, place[p]))
 		}
@@ -412,7 +417,8 @@ func (r *run) opSync(id string, out int, key uint64) (int, int, bool) {
 		before := r.observe()
 		r.beginOp(nil)
 		var err error
-		r.guard(func() { _, _, err = r.reg.SyncState(id, 0) })
+		// a stale table may well report eliminations: nothing may change
+		r.guard(func() { _, _, err = r.reg.SyncState(id, out) })
 		if r.dead {
 			return 0, 0, false
 		}
@@ -589,6 +595,20 @@ func (r *run) apply(st *sim.Step) {
 	if !r.dead {
 		r.account()
 	}
+	if r.opt.KeepLog && !r.dead {
+		o := r.observe()
+		h := sim.Mix(uint64(o.players), uint64(o.tables), uint64(len(o.queue)), uint64(len(r.inflight)))
+		for _, q := range o.queue {
+			h = sim.Mix(h, sim.HashString(q))
+		}
+		for _, id := range r.order {
+			h = sim.Mix(h, sim.HashString(id), uint64(len(r.tables[id].members)))
+			for _, m := range r.tables[id].members {
+				h = sim.Mix(h, sim.HashString(m))
+			}
+		}
+		r.res.Log = append(r.res.Log, h)
+	}
 }
 
 // settle is the C20 end-of-history check: no more registrations or
@@ -745,7 +765,7 @@ func (w World) Generate(subseed uint64, o sim.Options) *sim.Result {
 				id = "no-such-table"
 			}
 			r.res.Count("fault.stale-or-unknown-sync", 1)
-			do(sim.Step{Actor: "table", Op: "sync", SArgs: []string{id}, Args: []int64{0, 0}, Fault: "stale-sync"})
+			do(sim.Step{Actor: "table", Op: "sync", SArgs: []string{id}, Args: []int64{int64(rng.Intn(3)), 0}, Fault: "stale-sync"})
 		case 4:
 			do(sim.Step{Actor: "table", Op: "lookup", SArgs: []string{fmt.Sprintf("t%d", 1+rng.Intn(r.everTables+3))}})
 		case 5:
